@@ -14,6 +14,14 @@ MetabolicResult.success, ToolResult.success):
     (MetabolicResult.success / ToolResult.success false).
 Allowed tools actually running is recorded as an outcome (non-vacuity guard), not judged.
 
+Engine A, identity model (second BFS): who "the registered tool" is. The oracle above is per tool OBJECT (the recorder
+lives in the body, the declaration is the one that object carries when the request is made) and per registry KEY (the
+object the observer bound to the requested key); the model explores everything that lets key, object name and
+declaration drift apart through the public surface: relabelling a registered object, engulfing it again (one object,
+two keys), a different tool registered under the name another object points to, declarations replaced / mutated in
+place / moved to the other attribute after registration, direct writes to the public `tools` dict, tools whose `name`
+and declaration are properties - crossed with the restricted allowed sets and one request per entry point and key.
+
 Engine D (flat, exhaustive scenario family; same step functions and the same oracle): the dimensions the two
 searches above hold fixed -
   * every constructor option of the engine (silent, timeout_seconds, max_ros, the container type of the allowed
@@ -133,16 +141,47 @@ class FormTool(_ToolBase):
             setattr(self, k, v)
 
 
+class PropTool(_ToolBase):
+    """`name` and the declaration are properties over backing fields (the Tool protocol itself spells `name` as a property)"""
+
+    def __init__(self, name, req):
+        self._label = None
+        self._req = set(req)
+        super().__init__(name)
+
+    @property
+    def name(self):
+        return self._label
+
+    @name.setter
+    def name(self, value):
+        self._label = value
+
+    @property
+    def required_capabilities(self):
+        return self._req
+
+    @required_capabilities.setter
+    def required_capabilities(self, value):
+        self._req = value
+
+
 class Rec:
-    """reference record of one tool object ever registered in this history"""
-    __slots__ = ("name", "style", "req", "obj", "current")
+    """reference record of one tool OBJECT ever registered in this history: `obj` carries the recorder inside the body
+    that runs, `holder` is the object that sits in the engine's registry (the same object, or the SimpleTool wrapping
+    obj.execute), `req` what that object declares NOW (kept up to date by the harness when it changes the declaration),
+    `name` the name it was first registered under (only a label for messages)"""
+    __slots__ = ("name", "style", "req", "obj", "holder", "attr")
 
     def count(self):
         return self.obj.calls
 
 
 class St:
-    __slots__ = ("mito", "allowed", "recs", "last", "nucleus")
+    """`reg` is the reference registry, key -> Rec, derived from the public calls the harness made (never read back from
+    the engine): engulf_tool(x) binds the key x.name as it reads at that moment, register_function(n, ...) binds n, an
+    assignment to the public `tools` dict binds the assigned key. Several keys may hold the same Rec."""
+    __slots__ = ("mito", "allowed", "recs", "reg", "last", "nucleus", "opts", "steps")
 
 
 class _Null:
@@ -173,6 +212,8 @@ def make_tool(name, style, req):
         obj = CapTool(name, cap_list(req))
     elif style == "none":
         obj = BareTool(name)
+    elif style == "prop":
+        obj = PropTool(name, caps(req))
     elif style.startswith("required-") and style[9:] in _CONTAINERS:
         obj = FormTool(name, {"required_capabilities": _CONTAINERS[style[9:]](cap_list(req))})
     elif style.startswith("capabilities-") and style[13:] in _CONTAINERS:
@@ -193,14 +234,17 @@ def make_tool(name, style, req):
     return obj, obj
 
 
-def _new_rec(st, name, style, req, obj):
+def _new_rec(st, name, style, req, obj, holder=None, key=None):
     rec = Rec()
-    rec.name, rec.style, rec.req, rec.current, rec.obj = name, style, frozenset(req), True, obj
-    for r in st.recs:
-        if r.name == name:
-            r.current = False
+    rec.name, rec.style, rec.req, rec.obj, rec.holder = name, style, frozenset(req), obj, holder
+    rec.attr = "capabilities" if style.startswith("capabilities") else (None if style in ("none", "required-none") else "required_capabilities")
     st.recs.append(rec)
+    st.reg[name if key is None else key] = rec
     return rec
+
+
+def registered(st, rec):
+    return any(r is rec for r in st.reg.values())
 
 
 def build_state(allowed, opts=None, ctor=()):
@@ -210,14 +254,17 @@ def build_state(allowed, opts=None, ctor=()):
     st = St()
     st.allowed = None if allowed is None else frozenset(allowed)
     st.recs = []
+    st.reg = {}
     st.last = ("init",)
     st.nucleus = None
+    st.opts = o
+    st.steps = 0
     handed = []
     for name, style, req in ctor:
         obj, engulfable = make_tool(name, style, req)
         if engulfable is None:  # what register_function would build
             engulfable = SimpleTool(name=name, description="fn", func=obj.execute, required_capabilities=caps(req))
-        _new_rec(st, name, style, req, obj)
+        _new_rec(st, name, style, req, obj, engulfable)
         handed.append(engulfable)
     a = None if allowed is None else _CONTAINERS[o["container"]](caps(allowed))
     st.mito = Mitochondria(timeout_seconds=o["timeout"], max_ros=o["max_ros"], tools=handed or None,
@@ -230,21 +277,19 @@ def register(st, name, style, req, share_from=None):
     if share_from is not None:
         src = current(share_from, name)
         st.mito.engulf_tool(share_from.mito.tools[name])
-        _new_rec(st, name, src.style, src.req, src.obj)
-        return
+        return _new_rec(st, name, src.style, src.req, src.obj, share_from.mito.tools[name])
     obj, engulfable = make_tool(name, style, req)
     if engulfable is None:
         st.mito.register_function(name, obj.execute, description="fn", required_capabilities=caps(req))
+        engulfable = st.mito.tools.get(name)  # the engine's own wrapper: the only way to get hold of that object
     else:
         st.mito.engulf_tool(engulfable)
-    _new_rec(st, name, style, req, obj)
+    return _new_rec(st, name, style, req, obj, engulfable)
 
 
 def current(st, name):
-    for r in reversed(st.recs):
-        if r.name == name and r.current:
-            return r
-    return None
+    """the tool the observer bound to the key `name` last (None: the observer never bound that key)"""
+    return st.reg.get(name)
 
 
 def disallowed(st, rec):
@@ -256,7 +301,7 @@ def judge_counters(st, before, entry):
     for rec, b in zip(st.recs, before):
         a = rec.count()
         if a != b and disallowed(st, rec):
-            v.append((f"executed-disallowed:{entry}" + ("" if rec.current else ":replaced-tool"),
+            v.append((f"executed-disallowed:{entry}" + ("" if registered(st, rec) else ":replaced-tool"),
                       f"tool {rec.name!r} declared via {rec.style} requiring {sorted(rec.req)} ran {a - b}x although the engine "
                       f"only allows {sorted(st.allowed)}"))
     return v
@@ -433,7 +478,7 @@ def llm_loop(st, next_round, auto, max_iter, config=None, shared=False):
         return names
 
     before = [r.count() for r in st.recs]
-    targets = {r.name: r for r in st.recs if r.current}
+    targets = dict(st.reg)
     st.mito.execute_tool_call = spy  # observe ToolResult.success of the calls the loop makes
     try:
         if shared:
@@ -491,7 +536,7 @@ class Model:
         return o
 
     def canon(self, st):
-        cur = {r.name: (r.style, tuple(sorted(r.req))) for r in st.recs if r.current}
+        cur = {k: (r.style, tuple(sorted(r.req))) for k, r in st.reg.items()}
         order = tuple((n, cur.get(n)) for n in st.mito.tools)  # registration order kept by the engine
         if set(cur) != set(st.mito.tools):
             raise common.HarnessError(f"reference registry {sorted(cur)} != engine registry {sorted(st.mito.tools)}")
@@ -599,6 +644,185 @@ class Model:
         raise common.HarnessError(f"unknown op {op!r}")
 
 
+# ---- engine A, second model: identity / aliasing between registry keys and tool objects ------------------------
+# The statement speaks about "a registered tool" and "its declared required capabilities": the tool is the OBJECT bound
+# to the requested key, its declaration is what that object declares when the request is made. Everything that can make
+# a key, the bound object's own `name` and the declaration drift apart through the public surface is an operation here:
+#   reg       engulf_tool / register_function of a fresh object (re-binds the key)
+#   relabel   assign another name to the object bound to a key (nothing is re-registered)
+#   reengulf  engulf_tool(the object bound to a key) again: binds the key it is labelled with NOW (two keys, one object)
+#   redeclare change the declaration of the object bound to a key (new container / same container mutated in place /
+#             moved to the other declaration attribute)
+#   alias     tools[dst] = the object bound to src (the registry is a public dict)
+#   direct    tools[key] = a fresh object labelled objname (equal to the key or not)
+# plus one request per entry point per key. Judged by the same oracle as everywhere: the recorder inside the body that
+# ran belongs to an object whose current declaration is out of bounds => violation; a request for a key bound to such an
+# object must report failure.
+ID_NAMES = ["t0", "t1"]
+ID_DECLS = [("required", []), ("required", ["MONEY"]), ("capabilities", ["NET"]), ("register", []), ("register", ["MONEY"]),
+            ("prop", ["MONEY"]), ("none", [])]
+ID_DECLS_THOROUGH = ID_DECLS + [("capabilities", ["MONEY"]), ("simpletool", ["NET"]), ("prop", []), ("required-frozenset", ["NET", "MONEY"])]
+ID_DIRECT = [("required", ["MONEY"]), ("simpletool", []), ("prop", ["NET"])]
+ID_REDECL = [[], ["MONEY"]]
+ID_OPTS = [(("silent", False),), (("timeout", 0),), (("max_ros", 1.0),), (("container", "frozenset"),)]
+_DECL_ATTRS = ("required_capabilities", "capabilities")
+
+
+def _decl_value_fp(holder, attr):
+    try:
+        v = getattr(holder, attr)
+    except AttributeError:
+        return ("absent",)
+    if v is None:
+        return ("None",)
+    try:
+        return (type(v).__name__, tuple(sorted(c.name if isinstance(c, Capability) else repr(c) for c in v)))
+    except TypeError:
+        return (type(v).__name__, "?")
+
+
+def _inplace_ok(rec):
+    return rec.attr is not None and rec.holder is not None and isinstance(getattr(rec.holder, rec.attr, None), (set, list))
+
+
+class IdentityModel(Model):
+    def __init__(self, tier, depth):
+        super().__init__(tier)
+        self.thorough = tier == "thorough"
+        self.depth = depth
+        self.decls = ID_DECLS_THOROUGH if self.thorough else ID_DECLS
+
+    def roots(self):
+        opts = [()] + (ID_OPTS if self.thorough else [])
+        # {NET} and {NET, READ_FS} judge this alphabet's declarations alike: the quick tier keeps one of them
+        return [[a, [list(kv) for kv in o]] for a in (RESTRICTED if self.thorough else RESTRICTED[:2]) for o in opts]
+
+    def build(self, root):
+        allowed, opts = root
+        with contextlib.redirect_stdout(_NULL):
+            return build_state(allowed, {k: v for k, v in opts})
+
+    def ops(self, st):
+        o = []
+        if st.steps < self.depth - 1:  # the last operation of a history of maximal length is a request: nothing judges a
+            o = self.binding_ops(st)   # binding made there (calls change no canonical state, so they are never "in the way")
+        return o + self.request_ops()
+
+    def binding_ops(self, st):
+        o = [("reg", n, style, list(req)) for n in ID_NAMES for style, req in self.decls]
+        for k, rec in st.reg.items():
+            o += [("relabel", k, n) for n in ID_NAMES]
+            o.append(("reengulf", k))
+            for how in ("replace", "inplace", "switch"):
+                if how != "inplace" or _inplace_ok(rec):
+                    o += [("redeclare", k, how, list(r)) for r in ID_REDECL]
+            o += [("alias", dst, k) for dst in ID_NAMES if dst != k]
+        o += [("direct", k, n, style, list(req)) for k in ID_NAMES for n in ID_NAMES for style, req in ID_DIRECT]
+        return o
+
+    def request_ops(self):
+        o = []
+        for n in ID_NAMES:
+            o += [("met", n, "auto", "call"), ("met", n, "tool", "args"), ("met", n, "auto", "arg-of-other"), ("dig", n),
+                  ("etc", n, 0), ("etc", n, 1)]
+            if self.thorough:
+                o += [("met", n, pw, sh) for pw, sh in MET_QUICK if (pw, sh) not in (("auto", "call"), ("tool", "args"), ("auto", "arg-of-other"))]
+        o += [("llm", 0, True), ("llm", 1, True), ("llm", 2, True), ("llm", 2, False), ("intro", "list_tools"), ("intro", "export_tool_schemas")]
+        return o
+
+    def registry_view(self, st):
+        """(reference registry, the engine's public registry) as key -> index of the bound OBJECT, by identity"""
+        idx = {}
+        ref = []
+        for k, rec in st.reg.items():
+            ref.append((k, idx.setdefault(id(rec), len(idx))))
+        eng = []
+        for k, t in st.mito.tools.items():
+            i = [idx[id(r)] for r in st.reg.values() if r.holder is t]
+            eng.append((k, i[0] if i else "unknown-object"))
+        return tuple(ref), tuple(eng)
+
+    def canon(self, st):
+        ref, eng = self.registry_view(st)
+        objs = tuple((k, i, type(rec.holder).__name__, getattr(rec.holder, "name", None), rec.attr, tuple(sorted(rec.req)),
+                      tuple(_decl_value_fp(rec.holder, a) for a in _DECL_ATTRS))
+                     for (k, i), rec in zip(ref, st.reg.values()))
+        vol = volatile_paths()
+        flat = flatten(st.mito)
+        state = tuple(sorted((repr(p), leaf) for p, leaf in flat.items() if not _under(p, vol)))
+        return (objs, eng, public_health(st.mito), state)
+
+    def step(self, st, op):
+        st.steps += 1
+        with contextlib.redirect_stdout(_NULL):  # silent=False engines narrate on stdout
+            v = self._step(st, op)
+        ref, eng = self.registry_view(st)
+        if ref != eng and not v:
+            # the engine's public registry is not what the public calls made so far bind: nothing the statement forbids by
+            # itself, but the reference is then no basis for "the request names a registered disallowed tool"
+            st.last = ("registry-mismatch", repr(ref), repr(eng))
+        return v
+
+    def _step(self, st, op):
+        kind = op[0]
+        if kind in ("met", "dig", "etc", "llm", "intro"):
+            return super().step(st, op)
+        before = [r.count() for r in st.recs]
+        if kind == "reg":
+            _, name, style, req = op
+            register(st, name, style, req)
+            st.last = ("id", "reg", style)
+            return judge_counters(st, before + [0], "registration")
+        if kind == "direct":
+            _, key, objname, style, req = op
+            obj, engulfable = make_tool(objname, style, req)
+            st.mito.tools[key] = engulfable
+            _new_rec(st, objname, style, req, obj, engulfable, key=key)
+            st.last = ("id", "direct", style, key == objname)
+            return judge_counters(st, before + [0], "registration")
+        rec = st.reg.get(op[1] if kind != "alias" else op[2])
+        if rec is None or rec.holder is None:
+            st.last = ("id", kind, "not-applicable")
+            return []
+        h = rec.holder
+        if kind == "relabel":
+            h.name = op[2]
+            st.last = ("id", "relabel", op[1] == op[2])
+        elif kind == "reengulf":
+            label = h.name
+            st.mito.engulf_tool(h)
+            st.reg[label] = rec
+            st.last = ("id", "reengulf", label == op[1])
+        elif kind == "alias":
+            st.mito.tools[op[1]] = h
+            st.reg[op[1]] = rec
+            st.last = ("id", "alias")
+        elif kind == "redeclare":
+            _, _key, how, req = op
+            new = cap_list(req)
+            attr = rec.attr or "required_capabilities"
+            cur = getattr(h, attr, None)
+            if how == "inplace":
+                if not _inplace_ok(rec):
+                    raise common.HarnessError(f"in-place redeclaration is not enabled for {rec.style}")
+                cur.clear()
+                (cur.update if isinstance(cur, set) else cur.extend)(new)
+            else:
+                if how == "switch":
+                    if rec.attr is not None:
+                        setattr(h, rec.attr, None)  # "attribute present but None": declares nothing there
+                    attr = "capabilities" if rec.attr in (None, "required_capabilities") else "required_capabilities"
+                    cur = None
+                ctype = type(cur) if isinstance(cur, (set, frozenset, list, tuple)) else (list if attr == "capabilities" else set)
+                setattr(h, attr, ctype(new))
+                rec.attr = attr
+            rec.req = frozenset(req)
+            st.last = ("id", "redeclare", how, disallowed(st, rec))
+        else:
+            raise common.HarnessError(f"unknown op {op!r}")
+        return judge_counters(st, before, kind)
+
+
 # ---- engine B ---------------------------------------------------------------------------------------
 ROUND_OPTIONS = [[], ["t0"], ["t1"], ["zz"], ["t0", "t1"], ["t1", "t1"]]
 
@@ -615,7 +839,7 @@ def make_run(allowed_idx, decl0_idx, max_iter):
             register(st, "t0", *DECLS[rr - 1])
         auto = ch.pick(2, "auto_execute") == 0
         v, requested, seen = llm_loop(st, lambda i: ROUND_OPTIONS[ch.pick(len(ROUND_OPTIONS), f"round{i}")], auto, max_iter)
-        targets = {r.name: r for r in st.recs if r.current}
+        targets = dict(st.reg)
         asked_disallowed = any(n in targets and disallowed(st, targets[n]) for n in requested)
         ran_allowed = any(s for n, s in seen if n in targets and not disallowed(st, targets[n]))
         obs = (auto, len(requested), asked_disallowed, ran_allowed, tuple(sorted(set(s for _n, s in seen))))
@@ -700,7 +924,7 @@ def scenario(sc):
         else:
             v += _STEP.step(st, ("reg", "t0", b_decl[0], list(b_decl[1])))
     v += _STEP.step(st, tuple(judged))
-    if set(r.name for r in st.recs if r.current) != set(st.mito.tools):
+    if set(st.reg) != set(st.mito.tools):
         raise common.HarnessError(f"reference registry != engine registry {sorted(st.mito.tools)} in scenario {sc!r}")
     judged_something = any(disallowed(st, r) for r in st.recs)
     obs = (tuple(sorted(opts)), pk, repr(st.last))
@@ -818,6 +1042,11 @@ def run(ctx):
     model = Model(ctx.tier)
     depth = 5 if thorough else 4
     res = explore.explore(model, ctx, depth, validate_canon=200 if thorough else 40)
+    id_depth = 5 if thorough else 4
+    res_id = explore.explore(IdentityModel(ctx.tier, id_depth), ctx, id_depth, label="A-identity", validate_canon=200 if thorough else 40)
+    mismatch = sorted(o for o in ctx.outcomes if isinstance(o, str) and o.startswith("('registry-mismatch'"))
+    if mismatch:
+        ctx.defer_harness_error("the engine's public registry differs from the bindings the public calls made: " + mismatch[0][:600])
 
     max_iter = 3 if thorough else 2
     max_dev = None if thorough else 3
@@ -854,17 +1083,24 @@ def run(ctx):
     ctx.sample({"engine": "B", "root": [1, 1], "max_iter": max_iter, "choices": [[0, "t1-decl"], [0, "t0-reregister"],
                                                                                  [0, "auto_execute"], [1, "round0"], [0, "round1"]]})
     ctx.coverage.update(
-        states=res["states"],
-        transitions=res["transitions"] + b_exec + d_exec,
-        traces_validated_against_impl=res["transitions"] + b_exec + d_exec,
-        evaluations=res["transitions"] + b_exec + d_exec,
-        distinct_nontrivial=res["states"] + b_nontrivial + d["judging_scenarios"],
+        states=res["states"] + res_id["states"],
+        transitions=res["transitions"] + res_id["transitions"] + b_exec + d_exec,
+        traces_validated_against_impl=res["transitions"] + res_id["transitions"] + b_exec + d_exec,
+        evaluations=res["transitions"] + res_id["transitions"] + b_exec + d_exec,
+        distinct_nontrivial=res["states"] + res_id["states"] + b_nontrivial + d["judging_scenarios"],
         rule="engine A: BFS over canonical states (allowed set; per tool name the declaration style and requirement of the "
         "currently registered tool, in registration order; the engine's whole instance state fingerprinted recursively by value "
         "without naming any attribute, minus the numeric leaves / logs that tool-less requests change on a fresh engine, plus "
         "the health the engine reports publicly) with every "
         "registration / re-registration / metabolize(text shape x pathway) / execute_tool_call / scripted LLM-loop operation "
-        "applied in every reachable state; engine B: every answer sequence of the scripted provider (stop / t0 / t1 / unknown / "
+        "applied in every reachable state; engine A, identity model: BFS over canonical states (per registry key the identity of "
+        "the bound tool object, that object's type, own name, declaring attribute, container and declared requirement; the engine's "
+        "registry by identity; the same by-value fingerprint of the engine) from an empty engine, with every binding operation "
+        "(engulf_tool / register_function of a fresh object incl. one whose name and declaration are properties, assigning "
+        "another name to a bound object, engulfing a bound object again, changing a bound object's declaration by a new "
+        "container / in place / through the other attribute, tools[k] = a bound object, tools[k] = a fresh object named k or "
+        "not) in every state reached by fewer than depth-1 operations and one request per entry point and key in every state; "
+        "engine B: every answer sequence of the scripted provider (stop / t0 / t1 / unknown / "
         "two tools per round) after every (allowed set, t0 declaration, t1 declaration or none, t0 re-registration or none, "
         "auto_execute) prefix; engine D: the full product (constructor options silent / timeout_seconds / max_ros / allowed-set "
         "container / registration through tools=) x restricted allowed set x declaration form x entry point (text shapes, "
@@ -880,12 +1116,16 @@ def run(ctx):
         engine_b={"executions": b_exec, "roots": len(roots), "max_iterations": max_iter, "max_deviations": max_dev,
                   "requests_for_disallowed_tool": b_nontrivial},
         engine_d=d,
+        engine_a_identity={"states": res_id["states"], "transitions": res_id["transitions"], "depth_completed": res_id["depth_completed"],
+                           "binding_operations_per_history": id_depth - 1, "roots": res_id["roots"]},
         allowed_sets=ALLOWED, declarations=len(DECLS), tool_names=model.names,
         entry_points=sorted({f"metabolize:{p}" for p, _ in model.met}) + ["digest_glucose", "execute_tool_call", "llm-loop"],
     )
     if max_dev is not None:
         ctx.coverage["caps_hit"] = (f"engine B bounded to {max_dev} non-default answers per scenario in the quick tier; engine D "
                                     "histories vary one constructor option at a time and use engine A's declarations in the quick tier")
+    ctx.coverage["caps_hit"] = (ctx.coverage.get("caps_hit", "") + f"; identity model bounded to {id_depth - 1} binding operations per "
+                                "history").lstrip("; ")
     if not res["fixpoint"]:
         ctx.coverage["caps_hit"] = (ctx.coverage.get("caps_hit", "") + f"; engine A depth {depth} reached with "
                                     f"{res['frontier_left']} frontier states left").lstrip("; ")
@@ -898,8 +1138,11 @@ def run(ctx):
         "hidden state outside vars(engine) (module globals, closures, the tool object) is not part of engine A's "
         "canonical state; engine D therefore replays call / re-registration histories without any state merging",
         "a requirement given as a plain string is out of bounds for every allowed set of Capability members",
-        "not asserted (the statement quantifies over registrations and calls only): changing a tool's declaration or the "
-        "allowed set in place after registration / construction, writing to the public `tools` dict directly",
+        "'a registered tool' is read as the object bound to the requested key of the engine's public registry (by engulf_tool, "
+        "register_function or an assignment to the public `tools` dict) and 'its declared required capabilities' as what that "
+        "object declares when the request is made; the key a tool was engulfed under is its `name` as read at that moment",
+        "not asserted (the statement speaks of the set the engine was constructed with): replacing or mutating "
+        "`allowed_capabilities` after construction; removing keys from the public `tools` dict",
     ]
 
 
@@ -914,6 +1157,10 @@ def replay(ctx, case):
     fixed = {"root": case["root"], "hist": [_fix(o) for o in case["hist"]], "op": _fix(case["op"])}
     if fixed["root"] is not None:
         fixed["root"] = list(fixed["root"])
+    if fixed["root"] is not None and len(fixed["root"]) == 2 and not isinstance(fixed["root"][1], str) \
+            and (fixed["root"][0] is None or not isinstance(fixed["root"][0], str)):
+        # identity model: root = [allowed set, constructor options]; histories are never longer than its depth bound
+        return explore.replay_case(IdentityModel(ctx.tier, len(fixed["hist"]) + 2), fixed)
     return explore.replay_case(Model(ctx.tier), fixed)
 
 
